@@ -53,7 +53,7 @@ def main():
                     continue
                 meta = json.load(open(os.path.join(sd, "meta.json")))
                 _b = os.path.basename(wt.rstrip("/"))
-                rnd = "r2-" if _b.startswith("R2") else "r3-" if _b.startswith("R3") else "r4-" if _b.startswith("R4") else ""
+                rnd = os.environ["SEED_ROUND"] + "-" if os.environ.get("SEED_ROUND") else "r2-" if _b.startswith("R2") else "r3-" if _b.startswith("R3") else "r4-" if _b.startswith("R4") else ""
                 dst = os.path.join(VERIF, "seeded", "%s-%s%s" % (meta.get("property", os.path.basename(wt)), rnd, k))
                 os.makedirs(dst, exist_ok=True)
                 for f in ("patch.diff", "demo.diff"):
